@@ -757,7 +757,7 @@ class Interp:
         return self.lib.value_attr(self, obj, name)
 
     def getitem(self, obj, key):
-        if isinstance(obj, A.Arr):
+        if isinstance(obj, (A.Arr, A.Masked)):
             return A.getitem(obj, key)
         if isinstance(obj, Ref):
             if obj.kind == "list":
@@ -835,7 +835,7 @@ class Interp:
                 value = toklist_to_array(value, obj.dtype if obj.dtype in ("int", "float") else "float")
             elif isinstance(value, (Tok, str)):
                 value = tok_to_scalar(value, obj.dtype)
-            elif isinstance(value, Ref) and value.kind == "list":
+            else:
                 value = self.arr_operand(value)
             return A.setitem(obj, key, value)
         if isinstance(obj, Ref):
@@ -894,7 +894,10 @@ class Interp:
     # ------------------------------------------------------------------ expressions
     def lookup(self, name, frame):
         if name in frame.env:
-            return frame.env[name]
+            v = frame.env[name]
+            if type(v).__name__ == "UnboundAfterLoop":
+                raise EngineError(f"variable {name!r} is read after the loop at {v.where} whose zero-trip case was not split off")
+            return v
         m = frame.module
         if name in m.defs:
             n = m.defs[name]
@@ -1043,7 +1046,7 @@ class Interp:
     def ev_UnaryOp(self, node, frame):
         v = norm(self.eval(node.operand, frame))
         if isinstance(node.op, ast.USub):
-            if isinstance(v, A.Arr):
+            if isinstance(v, (A.Arr, A.Masked)):
                 return A.unop(sv.neg, v)
             if self.lib.is_lib_value(v):
                 return self.lib.value_binop(self, "*", v, -1)
@@ -1275,9 +1278,16 @@ class Interp:
 
     def symbolic_iter(self, v):
         """(length, item_at) if v iterates over a symbolic number of items, else None"""
-        from .lib import RangeVal
+        from .lib import RangeVal, _Enumerate
         if isinstance(v, RangeVal) and not v.concrete():
             return v.length(), v.item
+        if isinstance(v, _Enumerate):
+            sub = self.symbolic_iter(v.it)
+            if sub is None:
+                return None
+            n, item = sub
+            start = v.start
+            return n, (lambda i: (A.simp(sv.add(start, i)), item(i)))
         if isinstance(v, Ref) and v.kind == "list" and isinstance(v.content, A.SeqVal):
             c = v.content
             return c.length, c.fn
